@@ -157,6 +157,7 @@ type Core struct {
 	ctxCancel       func()
 	confPath        string
 	conf            atomic.Pointer[conf.Conf]
+	confAccepted    atomic.Pointer[conf.Conf] // accepted through the API, not yet applied
 	supportsIPv6    bool
 	logger          *logger.Logger
 	externalCmdPool *externalcmd.Pool
@@ -342,6 +343,10 @@ outer:
 
 		case req := <-p.chAPIConfigGlobalPatch:
 			newConf, err := p.doAPIConfigGlobalPatch(req.conf)
+			if err == nil {
+				// make the new configuration visible to API reads before replying
+				p.confAccepted.Store(newConf)
+			}
 			req.res <- err
 
 			if err == nil {
@@ -354,6 +359,10 @@ outer:
 
 		case req := <-p.chAPIConfigPathDefaultsPatch:
 			newConf, err := p.doAPIConfigPathDefaultsPatch(req.conf)
+			if err == nil {
+				// make the new configuration visible to API reads before replying
+				p.confAccepted.Store(newConf)
+			}
 			req.res <- err
 
 			if err == nil {
@@ -366,6 +375,10 @@ outer:
 
 		case req := <-p.chAPIConfigPathAdd:
 			newConf, err := p.doAPIConfigPathAdd(req.name, req.conf)
+			if err == nil {
+				// make the new configuration visible to API reads before replying
+				p.confAccepted.Store(newConf)
+			}
 			req.res <- err
 
 			if err == nil {
@@ -378,6 +391,10 @@ outer:
 
 		case req := <-p.chAPIConfigPathPatch:
 			newConf, err := p.doAPIConfigPathPatch(req.name, req.conf)
+			if err == nil {
+				// make the new configuration visible to API reads before replying
+				p.confAccepted.Store(newConf)
+			}
 			req.res <- err
 
 			if err == nil {
@@ -390,6 +407,10 @@ outer:
 
 		case req := <-p.chAPIConfigPathReplace:
 			newConf, err := p.doAPIConfigPathReplace(req.name, req.conf)
+			if err == nil {
+				// make the new configuration visible to API reads before replying
+				p.confAccepted.Store(newConf)
+			}
 			req.res <- err
 
 			if err == nil {
@@ -402,6 +423,10 @@ outer:
 
 		case req := <-p.chAPIConfigPathDelete:
 			newConf, err := p.doAPIConfigPathDelete(req.name)
+			if err == nil {
+				// make the new configuration visible to API reads before replying
+				p.confAccepted.Store(newConf)
+			}
 			req.res <- err
 
 			if err == nil {
@@ -1283,6 +1308,7 @@ func (p *Core) reloadConf(newConf *conf.Conf) error {
 	verifhook.Point("core.reloadConf.beforeStore")
 
 	p.conf.Store(newConf)
+	p.confAccepted.Store(nil)
 
 	err := p.createResources(false)
 	if err != nil {
@@ -1298,6 +1324,9 @@ func (p *Core) reloadConf(newConf *conf.Conf) error {
 }
 
 func (p *Core) apiConfigSnapshot() *conf.Conf {
+	if c := p.confAccepted.Load(); c != nil {
+		return c
+	}
 	return p.conf.Load()
 }
 
